@@ -9,6 +9,10 @@ import RumaModel.Generated.C14
 namespace Ruma.Lemmas.HtmlTables
 open Ruma Ruma.Html
 
+/-- The static lists the model runs with in the correspondence (T2): extracted from the
+implementation on this run; class patterns are not observable and come from the spec. -/
+def implLists : Lists := Generated.C14.lists Spec.HtmlAllow.classes
+
 theorem strict_table :
     Generated.C14.strict = Spec.HtmlAllow.expected .strict Generated.C14.univ := by decide +kernel
 
